@@ -2,6 +2,7 @@ package drivers
 
 import (
 	"crypto/x509"
+	"crypto/x509/pkix"
 	"fmt"
 	"math/big"
 	"strings"
@@ -14,7 +15,7 @@ import (
 	"verif/h/world"
 )
 
-var c02Behaviours = []string{"good", "revoked", "unknown", "http500", "refused", "html", "ldap", "https-good", "forged-good", "good-for-other-serial"}
+var c02Behaviours = []string{"good", "revoked", "unknown", "http500", "refused", "html", "ldap", "https-good", "forged-good", "good-for-other-serial", "revoked-large"}
 
 type c02Case struct {
 	List     []int // behaviour index per responder position
@@ -59,7 +60,7 @@ func c02Ref(c c02Case) (verdict string, answered bool) {
 		switch c02Behaviours[b] {
 		case "good", "https-good":
 			return "OK", true
-		case "revoked":
+		case "revoked", "revoked-large":
 			return "REVOKED", true
 		case "unknown":
 			return "ANY", true
@@ -111,6 +112,11 @@ func (k *c02Cast) leaf(c c02Case) (*world.Ident, *world.Ident) {
 	return l, ca
 }
 
+func (k *c02Cast) bulkyResponder(ca *world.Ident) *world.Ident {
+	return world.Issue(ca, world.CertOpt{CN: "c02 delegated responder with a bulky certificate", Serial: big.NewInt(779), KeyKind: "ec", KeyIdx: 7,
+		ExtKeyUsage: []x509.ExtKeyUsage{x509.ExtKeyUsageOCSPSigning}, ExtraExt: []pkix.Extension{world.UnknownExt(false, 5000)}})
+}
+
 func (k *c02Cast) unauthorised(ca *world.Ident) *world.Ident {
 	return world.Issue(ca, world.CertOpt{CN: "c02 not a responder", Serial: big.NewInt(778), KeyKind: "ec", KeyIdx: 7})
 }
@@ -157,6 +163,12 @@ func (k *c02Cast) run(c c02Case) (v0, v1, v2 Verdict, hits1, hits2 int) {
 				ans.Status = xocsp.Good
 				ans.Signer, ans.EmbedCert = k.unauthorised(ca), true
 				w.Net.Serve(url, "forged-good", world.BuildOCSP(ans))
+			case "revoked-large":
+				// an authentic answer of about 6 KiB: signed by a delegated responder (OCSPSigning) whose embedded certificate
+				// carries a bulky extension
+				ans.Status = xocsp.Revoked
+				ans.Signer, ans.EmbedCert = k.bulkyResponder(ca), true
+				w.Net.Serve(url, "revoked-large", world.BuildOCSP(ans))
 			case "good-for-other-serial":
 				// an authentic, issuer-signed "good" - about a sibling certificate: no answer for the presented one
 				ans.Status, ans.Serial = xocsp.Good, big.NewInt(778899)
@@ -210,7 +222,7 @@ func RunC02(tier string, args []string) int {
 				if n == "ldap" {
 					continue
 				}
-				if n == "good" || n == "revoked" || n == "unknown" || n == "https-good" {
+				if n == "good" || n == "revoked" || n == "unknown" || n == "https-good" || n == "revoked-large" {
 					first = n
 					break
 				}
@@ -339,7 +351,7 @@ func RunC02(tier string, args []string) int {
 	cov := fw.Coverage{
 		"evaluations":         evals,
 		"distinct_nontrivial": nontrivial,
-		"rule":                "all responder lists of length 0..3 (quick, 1111 lists) / 0..4 (thorough, 11111 lists) over 10 behaviours x aia_strict(2) x default cache duration {0,10m} x nextUpdate {absent,+1h} (thorough) x chain shape (3 quick / 5 thorough, incl. a chain which does not contain the issuer); each case is a history on a fresh checker: all responders down, lookup; responders as listed, lookup; all down, lookup. Non-trivial = at least one responder named.",
+		"rule":                "all responder lists of length 0..3 (quick, 1464 lists) / 0..4 (thorough, 16105 lists) over 11 behaviours x aia_strict(2) x default cache duration {0,10m} x nextUpdate {absent,+1h} (thorough) x chain shape (3 quick / 5 thorough, incl. a chain which does not contain the issuer); each case is a history on a fresh checker: all responders down, lookup; responders as listed, lookup; all down, lookup. Non-trivial = at least one responder named.",
 		"samples":             samples,
 		"outcome_classes":     outcomes.Counts(),
 		"exhaustive":          true,
